@@ -353,6 +353,12 @@ def deck():
         cell("merge/prop/other-dtype/%s" % strict, ["merge", P, Q, strict])
         cell("merge/prop/section/%s" % strict, ["merge", P, A, strict])
         cell("merge/prop/self/%s" % strict, ["merge", P, P, strict])
+    for strict in (True, False):
+        # the refusal comes late: earlier children of the source are mergeable, a later value is not convertible
+        cell("merge/sec/late-unconvertible-value/%s" % strict, ["prop", "p", enc(["5", "x"]), "string", B, {}],
+             ["merge", A, B, strict])
+        cell("merge/prop/late-unconvertible-value/%s" % strict, ["prop", "p", enc(["5", "6", "x"]), "string", None, {}],
+             ["merge", P, 14, strict])
     cell("link/to-sibling", ["set_link", B, A], ["clean", D], ["finalize", D], ["clean", D])
     cell("link/to-nested", ["set_link", B, C], ["clean", B])
     cell("link/unresolvable", ["set_link", B, "/nowhere"])
